@@ -14,6 +14,7 @@ import (
 	"math/rand"
 	"os"
 	"path/filepath"
+	"testing/iotest"
 
 	"github.com/itchio/lake"
 	"github.com/itchio/lake/pools/fspool"
@@ -24,36 +25,37 @@ import (
 )
 
 type c04File struct {
-	Path    string `json:"path"`
-	Size    int64  `json:"size"`
-	NRead   int    `json:"nread"`   // hashes ReadSignature assigned to this file (by FileIndex)
-	NDirect int    `json:"ndirect"` // hashes of the stand-alone signer for this file
-	NOwn    int    `json:"nown"`    // blocks of the independent recomputation
-	EqRD    bool   `json:"eqrd"`    // read-back == direct, block by block (weak, strong, short size, indices)
-	EqRO    bool   `json:"eqro"`    // read-back == own recomputation (weak, strong)
-	Shorts  []int64 `json:"shorts"` // short sizes as read back
-	Raw     []int  `json:"raw"`     // content of tiny files (<= 16 bytes), for TLC's own evaluation of the weak hash
-	B1      int64  `json:"b1"`      // weak hash of block 0 as read back, split: weak = b1 + 65536*b2
-	B2      int64  `json:"b2"`
+	Path    string  `json:"path"`
+	Size    int64   `json:"size"`
+	NRead   int     `json:"nread"`   // hashes ReadSignature assigned to this file (by FileIndex)
+	NDirect int     `json:"ndirect"` // hashes of the stand-alone signer for this file
+	NOwn    int     `json:"nown"`    // blocks of the independent recomputation
+	EqRD    bool    `json:"eqrd"`    // read-back == direct, block by block (weak, strong, short size, indices)
+	EqRO    bool    `json:"eqro"`    // read-back == own recomputation (weak, strong)
+	Shorts  []int64 `json:"shorts"`  // short sizes as read back
+	Raw     []int   `json:"raw"`     // content of tiny files (<= 16 bytes), for TLC's own evaluation of the weak hash
+	B1      int64   `json:"b1"`      // weak hash of block 0 as read back, split: weak = b1 + 65536*b2
+	B2      int64   `json:"b2"`
 }
 
 type c04Line struct {
-	Case       int       `json:"case"`
-	Desc       string    `json:"desc"`
-	Algo       string    `json:"algo"`
-	Q          int32     `json:"q"`
-	ShortReads int       `json:"shortreads"`
-	Files      []c04File `json:"files"`
-	NHashesRead   int    `json:"nhashesread"`
-	NHashesDirect int    `json:"nhashesdirect"`
-	ContainerEq bool     `json:"containereq"` // container read back == container walked
-	ReadErr    string    `json:"readerr"`
-	DiffErr    string    `json:"differr"`
-	HashInfoErr string   `json:"hashinfoerr"`
+	Case          int       `json:"case"`
+	Desc          string    `json:"desc"`
+	Algo          string    `json:"algo"`
+	Q             int32     `json:"q"`
+	ShortReads    int       `json:"shortreads"`
+	DataWithEOF   bool      `json:"datawitheof"`
+	Files         []c04File `json:"files"`
+	NHashesRead   int       `json:"nhashesread"`
+	NHashesDirect int       `json:"nhashesdirect"`
+	ContainerEq   bool      `json:"containereq"` // container read back == container walked
+	ReadErr       string    `json:"readerr"`
+	DiffErr       string    `json:"differr"`
+	HashInfoErr   string    `json:"hashinfoerr"`
 	// validation of a pristine copy
-	Wounds     int       `json:"wounds"`      // non-healthy wounds written by the wounds writer
-	ValidateErr string   `json:"validateerr"` // Validate with WoundsPath
-	FailFastErr string   `json:"failfasterr"` // AssertValid
+	Wounds            int    `json:"wounds"`            // non-healthy wounds written by the wounds writer
+	ValidateErr       string `json:"validateerr"`       // Validate with WoundsPath
+	FailFastErr       string `json:"failfasterr"`       // AssertValid
 	FailFastDirectErr string `json:"failfastdirecterr"` // AssertValid against the stand-alone signature
 }
 
@@ -94,12 +96,21 @@ func ownSignature(content []byte) []ownHash {
 type shortReadPool struct {
 	lake.Pool
 	n int
+	// dataWithEOF: readers hand over the last bytes of a file together with io.EOF (n > 0, err == io.EOF), as the
+	// io.Reader contract allows and as decompressing readers (zip entries, HTTP bodies) do
+	dataWithEOF bool
 }
 
 func (p *shortReadPool) GetReader(i int64) (io.Reader, error) {
 	r, err := p.Pool.GetReader(i)
 	if err != nil {
 		return nil, err
+	}
+	if p.dataWithEOF {
+		r = iotest.DataErrReader(r)
+	}
+	if p.n <= 0 {
+		return r, nil
 	}
 	return &chunkReader{r: r, n: p.n}, nil
 }
@@ -193,6 +204,10 @@ func cmdC04(args []string) error {
 			line.ShortReads = []int{1, 7, 4096, BS - 1, BS + 1}[rng.Intn(5)]
 			srcPool = &shortReadPool{Pool: srcPool, n: line.ShortReads}
 		}
+		if k%4 >= 2 { // (with and without short reads)
+			line.DataWithEOF = true
+			srcPool = &shortReadPool{Pool: srcPool, n: line.ShortReads, dataWithEOF: true}
+		}
 		dctx := &pwr.DiffContext{Compression: compressionOf(c.a, c.q), Consumer: nullConsumer(), SourceContainer: sourceContainer, Pool: srcPool,
 			TargetContainer: targetContainer, TargetSignature: targetSig}
 		var patch, sig bytes.Buffer
@@ -215,7 +230,11 @@ func cmdC04(args []string) error {
 		}
 		line.ContainerEq = si.Container.EnsureEqual(sourceContainer) == nil && sourceContainer.EnsureEqual(si.Container) == nil && si.Container.Size == sourceContainer.Size
 		// (b) stand-alone signature
-		direct, err := pwr.ComputeSignature(context.Background(), sourceContainer, fspool.New(sourceContainer, newDir), nullConsumer())
+		var directPool lake.Pool = fspool.New(sourceContainer, newDir)
+		if k%8 >= 4 {
+			directPool = &shortReadPool{Pool: directPool, dataWithEOF: true}
+		}
+		direct, err := pwr.ComputeSignature(context.Background(), sourceContainer, directPool, nullConsumer())
 		if err != nil {
 			return err
 		}
